@@ -22,8 +22,8 @@ OUTSIDE = ["allowed-sets with symbolic members (hash based membership): values e
            "InputExp with a finite duration (timers are C04's subject; here duration = INF_TIME)"]
 STUBS = ["Circuit.sblock_queue = list-backed stub; start sequence = real resolver/finalize/init methods"]
 ASSUMPTIONS = ["validators are pure functions"]
-EXPECT_LABELS = {'all': ['put-ret', 'put-output', 'ctor-initdef', 'restore', 'exp-put', 'exp-ctor']}
-EXPECT_NOTES = {'all': ['accepted', 'rejected']}
+EXPECT_LABELS = {'all': ['put-ret', 'put-output', 'ctor-initdef', 'restore', 'restore-exp', 'exp-put', 'exp-ctor']}
+EXPECT_NOTES = {'all': ['accepted', 'rejected', 'restored-value-accepted', 'restored-value-refused']}
 FLOORS = {'quick': {'paths': 300, 'checks': 1000}, 'thorough': {'paths': 3000, 'checks': 10000}}
 
 ALLOWED = (0, 2, 3, 5)
@@ -151,6 +151,42 @@ def scen_restore(env, has_allowed, has_check, schema_kind):
             env.check('restore', And_(acc, eq_(inp.output, out)))
 
 
+def scen_restore_exp(env, has_allowed, has_check, schema_kind):
+    """the value part of an InputExp restored from the persistent storage passes through the same validation:
+    accepted -> the block is 'valid' with schema(value); refused -> the saved state is not used (normal initialisation)"""
+    circ = sync_circuit()
+    val = Validators(env, has_allowed, has_check, schema_kind)
+    kw = dict(val.kw)
+    ev = value(env, 'expired', has_allowed)
+    acc_e, out_e = val.accepted(ev)
+    env.assume(acc_e)
+    init_given = env.choose(2, 'init_given')
+    if init_given:
+        i0 = value(env, 'initdef', has_allowed)
+        acc0, out0 = val.accepted(i0)
+        env.assume(acc0)
+        kw['initdef'] = i0
+    ie = edzed.InputExp('ie', duration=edzed.INF_TIME, expired=ev, persistent=True, **kw)
+    saved_state = env.pick(['valid', 'expired'], 'saved_state')
+    pv = value(env, 'persistent', has_allowed)
+    circ.persistent_dict = {ie.key: ('valid', None, {'input': pv}) if saved_state == 'valid' else ('expired', None, {}),
+                            'edzed-stop-time': 1.0}
+    start_sync(circ)
+    if saved_state == 'expired':
+        env.check('restore-exp', And_(ie.state == 'expired', eq_(ie.output, out_e)), info=lambda: (ie.state, ie.output))
+        return
+    acc, out = val.accepted(pv)
+    if bool(acc):           # forks
+        env.note('restored-value-accepted')
+        env.check('restore-exp', And_(ie.state == 'valid', eq_(ie.output, out)), info=lambda: (pv, ie.state, ie.output))
+    else:
+        env.note('restored-value-refused')
+        if init_given:
+            env.check('restore-exp', And_(ie.state == 'valid', eq_(ie.output, out0)), info=lambda: (pv, ie.state, ie.output))
+        else:
+            env.check('restore-exp', And_(ie.state == 'expired', eq_(ie.output, out_e)), info=lambda: (pv, ie.state, ie.output))
+
+
 def scen_inputexp(env, has_allowed, has_check, schema_kind, n):
     circ = sync_circuit()
     val = Validators(env, has_allowed, has_check, schema_kind)
@@ -205,6 +241,7 @@ def shards(tier):
                 out.append({'name': f'input {tag} n={nn}', 'scenario': 'scen_input',
                             'params': {**p, 'n': nn}, 'cost': 10 if a else 3})
                 out.append({'name': f'restore {tag}', 'scenario': 'scen_restore', 'params': p})
+                out.append({'name': f'restore inputexp {tag}', 'scenario': 'scen_restore_exp', 'params': p})
                 out.append({'name': f'inputexp {tag}', 'scenario': 'scen_inputexp',
                             'params': {**p, 'n': min(nn, 2 if a else 3)}, 'cost': 5})
     return out
